@@ -97,6 +97,12 @@ class VKeyDiff(V):       # kwargs.keys() - <constant set of names>
 class VDictRef(V):       # a dict object created in verified text with constant keys; contents live in the state heap under ('dict', rid)
     rid: int
 @dataclass(frozen=True)
+class VFStr(V):          # f-string: ordered parts
+    parts: tuple
+@dataclass(frozen=True)
+class VPartial(V):       # functools.partial(func, **kwargs)
+    func: object; kwargs: tuple
+@dataclass(frozen=True)
 class VSuper(V):         # super() inside a method: only super().__new__(cls) (object allocation) is modelled
     pass
 @dataclass(frozen=True)
@@ -112,7 +118,7 @@ class Exec:
         self.uni = uni; self.scope = dict(scope or {}); self.obls = []; self.name = name
         self.prune = prune; self.call_model = call_model or {}; self._solver = None; self.npaths = 0
         self.inline_repo_funcs = inline_repo_funcs; self.assumptions = set(); self.dropped = set()
-        self._axioms = None; self.nprune = 0; self.raised = []; self.on_yield = None; self.yield_resume = None; self.loop_contracts = {}; self.loop_index = {}; self.fields_mode = False; self.method_names = {'values', 'items', 'keys', 'get'}; self.ghost_unhashable = False
+        self._axioms = None; self.nprune = 0; self.raised = []; self.fstr_eval_calls = False; self.on_yield = None; self.yield_resume = None; self.loop_contracts = {}; self.loop_index = {}; self.fields_mode = False; self.method_names = {'values', 'items', 'keys', 'get'}; self.ghost_unhashable = False
     # ------------------------------------------------------------ helpers
     def obl(self, st, kind, goal, where=''):
         self.obls.append(Obl(f'{self.name}.{kind}.{len(self.obls)}', kind, st.pc, goal, where))
@@ -135,6 +141,11 @@ class Exec:
             if n == 0: return self.uni.const(())
             return z3.Function(f'tuple{n}', *([Obj] * n), Obj)(*[self.obj(i) for i in v.items])
         if isinstance(v, VDictRef): return z3.Const(f'dictref_{v.rid}', Obj)
+        if isinstance(v, VFStr):
+            n = len(v.parts)
+            return z3.Function(f'fstr{n}', *([Obj] * n), Obj)(*[self.obj(p) for p in v.parts]) if n else self.uni.const('')
+        if isinstance(v, VSlice): return z3.Function('slice_of', Obj, Obj)(self.obj(v.src))
+        if isinstance(v, VPartial): return z3.Const(f'partial_{getattr(v.func, "o", v.func)!r}'[:60], Obj)
         if isinstance(v, VExc): return z3.Const(f'exc_{v.cls.__name__}', Obj)
         raise Unsupported(f'object coercion of {type(v).__name__}')
     def truth(self, v):
@@ -144,7 +155,8 @@ class Exec:
         if isinstance(v, VPy):
             return z3.BoolVal(bool(v.o))
         if isinstance(v, VTup): return z3.BoolVal(len(v.items) > 0)
-        if isinstance(v, (VClosure, VBound)): return z3.BoolVal(True)
+        if isinstance(v, (VClosure, VBound, VPartial)): return z3.BoolVal(True)
+        if isinstance(v, VFStr): return z3.BoolVal(True) if any(isinstance(p, VPy) and p.o for p in v.parts) else M.truthy(self.obj(v))
         raise Unsupported(f'truth of {type(v).__name__}')
     def fork(self, st, cond):
         """-> [(state, bool)] feasible branches on a z3 Bool"""
@@ -367,6 +379,8 @@ class Exec:
             outs += self.getattr_(s, b, n.attr)
         return outs
     def getattr_(self, s, b, name):
+        if isinstance(b, VPy) and isinstance(b.o, types.ModuleType) and s.hget(('global', b.o.__name__, name)) is not None:
+            return [(s, s.hget(('global', b.o.__name__, name)))]
         if isinstance(b, VPy) and not isinstance(b.o, (int, str, dict, list, tuple, set, frozenset)):
             try: v = getattr(b.o, name)
             except AttributeError: return [(s, VBound(b, name))]
@@ -399,7 +413,21 @@ class Exec:
     def e_Lambda(self, n, st):
         return [(st, VClosure(n, st.env, None))]
     def e_JoinedStr(self, n, st):
-        self.dropped.add('f-string contents'); return [(st, VObj(M.fresh('str')))]
+        # an f-string is the ordered concatenation of its parts: constants stay constants, substitutions keep their value terms
+        outs = [(st, ())]
+        for part in n.values:
+            nxt = []
+            for s, acc in outs:
+                if isinstance(part, ast.Constant): nxt.append((s, acc + (VPy(part.value),)))
+                elif not self.fstr_eval_calls and any(isinstance(x, (ast.Call, ast.Await, ast.Yield, ast.NamedExpr)) for x in ast.walk(part.value)):
+                    # message text: calls inside f-strings (repr(...), label_*(...)) are NOT executed - the part is an opaque string
+                    self.dropped.add('call expressions inside f-strings (message text) are not executed')
+                    nxt.append((s, acc + (VObj(M.fresh('fstr_part')),)))
+                else:
+                    for s2, v in self.eval(part.value, s): nxt.append((s2, acc + (v,)))
+            outs = nxt
+        self.dropped.add('f-string conversion/format specs (parts and their order are kept)')
+        return [(s, VFStr(acc)) for s, acc in outs]
     def e_GeneratorExp(self, n, st):
         return [(st, VClosure(n, st.env, None))]
 
@@ -471,7 +499,7 @@ class Exec:
                 except ValueError: pass
         sub = Exec(self.uni, scope, prune=self.prune, call_model=self.call_model, name=self.name + '>' + o.__name__,
                    inline_repo_funcs=self.inline_repo_funcs)
-        sub.obls = self.obls; sub.assumptions = self.assumptions; sub.dropped = self.dropped; sub.raised = self.raised; sub.on_yield = None; sub.fields_mode = self.fields_mode; sub.method_names = self.method_names; sub.ghost_unhashable = self.ghost_unhashable
+        sub.obls = self.obls; sub.assumptions = self.assumptions; sub.dropped = self.dropped; sub.raised = self.raised; sub.on_yield = None; sub.fstr_eval_calls = self.fstr_eval_calls; sub.fields_mode = self.fields_mode; sub.method_names = self.method_names; sub.ghost_unhashable = self.ghost_unhashable
         return sub.run_function(node, s, args, kwargs, o)
     def bind_params(self, node, s, args, kwargs, defaults_from=None):
         a = node.args; env = {}
@@ -520,6 +548,8 @@ class Exec:
         raise Unsupported('closure call ' + where)
     def call_method(self, s, f, args, kwargs, where):
         b, name = f.self_, f.name
+        if isinstance(b, VSuper) and self.call_model.get('super.' + name) is not None:
+            return self.call_model['super.' + name](self, s, f, args, kwargs, where)
         if isinstance(b, VSuper) and name == '__new__' and len(args) == 1:
             t = M.fresh('new'); cs = self.classes_of(args[0])
             s = s.assume(M.inst(t, cs[0])).ev('alloc', t)
@@ -531,6 +561,11 @@ class Exec:
                 for s2, p in self.fork(s1, present):
                     outs.append((s2.ev('ghost_get', b.name, self.keycls(args[0])), VObj(val)) if p else (s2, args[1] if len(args) == 2 else VPy(None)))
             return outs
+        if isinstance(b, VDictRef) and name == 'get' and 1 <= len(args) <= 2 and isinstance(args[0], VPy):
+            cur = dict(s.hget(('dict', b.rid), ()))
+            return [(s, cur.get(args[0].o, args[1] if len(args) == 2 else VPy(None)))]
+        if isinstance(b, VDictRef) and name == 'copy' and not args:
+            s2, ref = self.new_dict(s, list(s.hget(('dict', b.rid), ()))); return [(s2, ref)]
         if name in ('values', 'items', 'keys') and not args:
             bt = self.obj(b); ok = M.inst(bt, self.uni.const(cabc.Mapping))
             self.obl(s, 'defined.attr', ok, where); s = s.assume(ok)
@@ -772,6 +807,8 @@ class Exec:
             s = hs[0]
             stores = s.hget(('ghost', b.name), ())
             return s.hset(('ghost', b.name), stores + ((self.keycls(k), v),)).ev('ghost_store', b.name, self.keycls(k), v, k)
+        if isinstance(b, VObj):
+            return s.eff('setitem', b.t, (self.obj(k), self.obj(v)))
         raise Unsupported('item assignment on ' + type(b).__name__ + ': ' + where)
     def keycls(self, k):
         if isinstance(k, VTup): return tuple(M.eqc(self.obj(c)) for c in k.items)
@@ -803,6 +840,8 @@ class Exec:
     def setattr_(self, s, b, name, v):
         if isinstance(b, VObj):
             return s.hset(('field', name), z3.Store(self.field(s, name), b.t, self.obj(v))).hset(('fieldlast', name), (b.t, v)).eff('setattr', b.t, name)
+        if isinstance(b, VPy) and isinstance(b.o, types.ModuleType):
+            return s.hset(('global', b.o.__name__, name), v).ev('global_store', b.o.__name__, name, v)
         raise Unsupported(f'attribute assignment on {type(b).__name__}.{name}')
     def s_With(self, n, st):
         # locks, catch_warnings(...), warnings_ignored(...): transparent (their protocol is trusted); `as` names are bound to an opaque object
@@ -834,6 +873,17 @@ class Exec:
         return outs
     def s_Import(self, n, st): return [('next', st, None)]
     s_Global = s_Import; s_Nonlocal = s_Import
+    def s_ImportFrom(self, n, st):
+        # a local import binds the real object of the working tree / stdlib - unless the sidecar put a contract value under that name
+        import importlib
+        s = st
+        for a in n.names:
+            nm = a.asname or a.name
+            if isinstance(self.scope.get(nm), V): continue
+            try: obj = getattr(importlib.import_module(n.module), a.name)
+            except Exception: continue
+            if nm not in self.scope: s = s.set(nm, VPy(obj))
+        return [('next', s, None)]
     # ---- loops: summarisation of `for v in <symbolic iterable>: body` whose iterations carry no state (appendix E)
     def symiter(self, s, v):
         if isinstance(v, VSlice):
@@ -957,4 +1007,3 @@ class Exec:
                     so = so.assume(earlier)
                 outs.append((kind, so, v))
         return outs
-    s_ImportFrom = s_Import
